@@ -60,3 +60,21 @@ Proof.
   intros lowers lowers' low R k. rewrite map_get_find, map_find_set. unfold Dupes.set_mem. cbn [existsb].
   destruct (String.eqb k low); cbn [orb]; auto. rewrite <- map_get_find. apply R.
 Qed.
+
+(* sort.Strings and strings.Join(l, "") are Model/Cache.v's sort_strings and join *)
+From Mage Require Model.Cache.
+Lemma sort_Strings_Cache : forall l, sort_Strings l = Cache.sort_strings l.
+Proof.
+  assert (I : forall x l, sort_insert x l = Cache.insert x l) by (induction l as [|y r IH]; simpl; auto; try now rewrite IH).
+  induction l as [|x l IH]; simpl; auto; try (now rewrite IH, I).
+Qed.
+Lemma strings_Join_Cache : forall l, strings_Join l "" = Cache.join l.
+Proof. apply strings_Join_empty_sep. Qed.
+
+(* strings.Split(s, "c") and strings.EqualFold are Classify's split_on and equal_fold *)
+Lemma split_char_Classify : forall c s, split_char c s = Classify.split_on c s.
+Proof. induction s as [|d r IH]; simpl; auto; try (rewrite IH; reflexivity). Qed.
+Lemma EqualFold_Classify : forall a b, strings_EqualFold a b = Classify.equal_fold a b.
+Proof. intros. unfold strings_EqualFold, Classify.equal_fold. now rewrite !ToLower_Classify. Qed.
+Lemma strings_Join_Classify : forall l sep, strings_Join l sep = Classify.join sep l.
+Proof. unfold strings_Join. induction l as [|x l IH]; intros sep; simpl; auto; try (destruct l; auto; now rewrite <- IH). Qed.
